@@ -31,7 +31,10 @@ EXPLANATION = (
     "Optimize runs SimplifyContainers again (otherwise a second run would "
     "rewrite List[Any] to List).  These are necessary conditions only: that "
     "each lossless visitor really widens, and that a second run is the "
-    "identity, are not decided.")
+    "identity, are not decided.  R11.5 every path from a pass that can turn "
+    "a union member into Any (object -> Any in return and constant types) to "
+    "the end of Optimize runs a union-joining pass again (otherwise the "
+    "emitted Union[X, Any] collapses to Any on a second run).")
 ASSUMPTIONS = [
     "the classification of optimize.py's visitors into lossless / "
     "meaning-changing follows their docstrings and the `lossy`, `use_abcs`, "
@@ -178,12 +181,18 @@ def r11_1(ctx):
                 "lossy=False, use_abcs=False, remove_mutable=False", facts)
 
 
-def _flag_in_test(test, flag):
-  """`flag`, or an `and` with `flag` as a conjunct."""
-  if isinstance(test, ast.Name) and test.id == flag:
-    return True
-  if isinstance(test, ast.BoolOp) and isinstance(test.op, ast.And):
-    return any(_flag_in_test(v, flag) for v in test.values)
+def _flag_in_test(test, flag, pol=True):
+  """Does `test` evaluating to `pol` imply that `flag` is truthy?"""
+  if isinstance(test, ast.UnaryOp) and isinstance(test.op, ast.Not):
+    return _flag_in_test(test.operand, flag, not pol)
+  if pol:
+    if isinstance(test, ast.Name) and test.id == flag:
+      return True
+    if isinstance(test, ast.BoolOp) and isinstance(test.op, ast.And):
+      return any(_flag_in_test(v, flag, True) for v in test.values)
+    return False
+  if isinstance(test, ast.BoolOp) and isinstance(test.op, ast.Or):
+    return any(_flag_in_test(v, flag, False) for v in test.values)
   return False
 
 
@@ -250,7 +259,7 @@ def r11_2(ctx):
           raise AnalysisError(f"{construct}: pass used in a condition")
         g = flow.guards(mod.parent, stmt, stop=fn)
         all_g.append([(src(t), p) for t, p in g])
-        ok = ok and any(p and _flag_in_test(t, flag) for t, p in g)
+        ok = ok and any(_flag_in_test(t, flag, p) for t, p in g)
       gtxt = all_g[0] if len(all_g) == 1 else all_g
       ctx.check(ok, construct, OPT, call.lineno,
                 f"{name} changes the meaning of the declarations and must "
@@ -446,6 +455,122 @@ def r11_4(ctx):
             {"returns": [v for v, _ in kinds]})
 
 
+def _rejoins_unions(mod, cls_name):
+  """Does visitor `cls_name` re-normalise a union that contains Any?  True for
+  a VisitUnionType with a `return ..JoinTypes(<param>.type_list)` that is
+  unconditional or taken when <generic/Any> is in the union."""
+  if cls_name not in mod.classes:
+    return False
+  vu = mod.methods(cls_name).get("VisitUnionType")
+  if vu is None or len(vu.args.args) != 2:
+    return False
+  u = vu.args.args[1].arg
+  for r in _returns(vu):
+    v = r.value
+    if isinstance(v, ast.Call) and \
+        (dotted(v.func) or "").split(".")[-1] == "JoinTypes" and \
+        len(v.args) == 1 and src(v.args[0]) == f"{u}.type_list":
+      g = flow.guards(mod.parent, r, stop=vu)
+      pos = [t for t, p in g if p]
+      if not g:
+        return True
+      if all(isinstance(t, ast.Compare) and len(t.ops) == 1
+             and isinstance(t.ops[0], ast.In)
+             and src(t.comparators[0]) == f"{u}.type_list" for t in pos) and pos:
+        return True
+  return False
+
+
+def _puts_any_into_types(mod, cls_name, seen=()):
+  """Does visitor `cls_name` replace a non-union leaf type by AnythingType
+  (directly, or through a visitor it applies to sub-trees)?"""
+  if cls_name not in mod.classes or cls_name in seen:
+    return False
+  for name, m in mod.methods(cls_name).items():
+    if not name.startswith("Visit") or name == "VisitUnionType":
+      continue
+    for r in _returns(m):
+      v = r.value
+      if v is None:
+        continue
+      if _is_anything(v):
+        return True
+      d = dotted(v)
+      if d and d.startswith("self."):
+        init = mod.methods(cls_name).get("__init__")
+        if init is not None and any(
+            isinstance(a, ast.Assign) and dotted(a.targets[0]) == d
+            and _is_anything(a.value) for a in ast.walk(init)):
+          return True
+    for c in calls_in(m):
+      if isinstance(c.func, ast.Attribute) and c.func.attr == "Visit" and \
+          len(c.args) == 1 and isinstance(c.args[0], ast.Call):
+        inner = (dotted(c.args[0].func) or "").split(".")[-1]
+        if _puts_any_into_types(mod, inner, seen + (cls_name,)):
+          return True
+  return False
+
+
+@rule("R11.5", "C11", floor=1)
+def r11_5(ctx):
+  """After a pass that can put Any into a union, unions are re-joined."""
+  mod = get_module(ctx, OPT)
+  fn = mod.func("Optimize")
+
+  def passes(unit):
+    return [(dotted(c.func) or "").split(".")[-1]
+            for c in ast.walk(unit) if isinstance(c, ast.Call)] \
+        if isinstance(unit, ast.AST) else []
+
+  all_passes = sorted({p for n in ast.walk(fn) for p in passes(n)
+                       if p in mod.classes})
+  producers = [p for p in all_passes
+               if _puts_any_into_types(mod, p) and not _rejoins_unions(mod, p)
+               and p != "CollapseLongUnions"]
+  joiners = [p for p in all_passes if _rejoins_unions(mod, p)]
+  if "SimplifyUnions" not in joiners:
+    raise AnalysisError(
+        "SimplifyUnions is no longer recognised as a union re-joining pass")
+  if not producers:
+    raise AnalysisError(
+        "no pass of Optimize was recognised as replacing a type by Any "
+        "(AdjustReturnAndConstantGenericType expected)")
+
+  def gen(unit):
+    return ["joined"] if set(passes(unit)) & set(joiners) else []
+
+  def kill(unit):
+    p = set(passes(unit))
+    if p & set(producers) and not p & set(joiners):
+      return ["joined"]
+    return None
+
+  f = flow.flow(fn, gen, kill, mode="must")
+  exits = [st for k, _, st in f.exits if k != "raise"]
+  ok = bool(exits) and all(st is not None and "joined" in st for st in exits)
+  # is there a re-join after the producer on *some* path?
+  fm = flow.flow(fn, gen, kill, mode="may")
+  some = any(st is not None and "joined" in st
+             for k, _, st in fm.exits if k != "raise")
+  facts = {"any_producers": producers, "union_joiners": joiners,
+           "rejoined_on_every_path": ok, "rejoined_on_some_path": some}
+  if ok:
+    ctx.ok("Optimize:union-rejoin-after-Any-producer", OPT, fn.lineno, facts)
+  elif some:
+    ctx.bad("Optimize:union-rejoin-after-Any-producer", OPT, fn.lineno,
+            f"{producers} can turn a union member into Any, and a re-joining "
+            f"pass ({joiners}) follows only on some paths: on the others "
+            "Optimize leaves Union[X, Any], which a second run collapses to "
+            "Any", facts)
+  else:
+    ctx.bad("Optimize:no-union-rejoin-after-Any-producer", OPT, fn.lineno,
+            f"{producers} replaces `object` by Any inside return/constant "
+            f"types *after* the last union-joining pass ({joiners}): "
+            "`def f() -> Union[list[int], object]` is emitted as "
+            "Union[list[int], Any], and optimising that output again gives "
+            "Any - Optimize is not idempotent", facts)
+
+
 VARIANTS = [
     # R11.1
     {"name": "generate_pyi_ast-lossy", "rule": "R11.1", "file": IO, "expect": "fire",
@@ -490,6 +615,9 @@ VARIANTS = [
     {"name": "twin-lossy-pass-built-outside-guard", "rule": "R11.2", "file": OPT, "expect": "silent",
      "old": "    if lossy:\n      node = node.Visit(FindCommonSuperClasses(hierarchy))",
      "new": "    finder = FindCommonSuperClasses(hierarchy)\n    if lossy:\n      node = node.Visit(finder)"},
+    {"name": "twin-lossy-guard-negated-else", "rule": "R11.2", "file": OPT, "expect": "silent",
+     "old": "    if lossy:\n      node = node.Visit(FindCommonSuperClasses(hierarchy))",
+     "new": "    if not lossy:\n      pass\n    else:\n      node = node.Visit(FindCommonSuperClasses(hierarchy))"},
     # R11.3
     {"name": "collapse-to-object", "rule": "R11.3", "file": OPT, "expect": "fire",
      "old": "    self.generic_type = pytd.AnythingType()\n    self.max_length = max_length",
@@ -509,6 +637,18 @@ VARIANTS = [
     {"name": "twin-collapse-reordered-arms", "rule": "R11.3", "file": OPT, "expect": "silent",
      "old": "    elif self.generic_type in union.type_list:\n      return pytd_utils.JoinTypes(union.type_list)\n    else:\n      return union",
      "new": "    if self.generic_type not in union.type_list:\n      return union\n    return pytd_utils.JoinTypes(union.type_list)"},
+    # R11.5 (today's instance is a known finding under its own construct name;
+    # the variants repair it, or repair it on one path only)
+    {"name": "twin-rejoin-after-adjust", "rule": "R11.5", "file": OPT, "expect": "silent",
+     "old": "  node = node.Visit(AdjustReturnAndConstantGenericType())\n",
+     "new": "  node = node.Visit(AdjustReturnAndConstantGenericType())\n  node = node.Visit(SimplifyUnions())\n"},
+    {"name": "twin-adjust-moved-before-simplify-unions", "rule": "R11.5", "expect": "silent",
+     "edits": [(OPT, "  node = node.Visit(AdjustReturnAndConstantGenericType())\n", ""),
+               (OPT, "  node = node.Visit(RemoveDuplicates())\n",
+                "  node = node.Visit(AdjustReturnAndConstantGenericType())\n  node = node.Visit(RemoveDuplicates())\n")]},
+    {"name": "rejoin-after-adjust-only-when-remove-mutable", "rule": "R11.5", "file": OPT, "expect": "fire",
+     "old": "    node = node.Visit(AbsorbMutableParameters())\n",
+     "new": "    node = node.Visit(SimplifyUnions())\n    node = node.Visit(AbsorbMutableParameters())\n"},
     # R11.4
     {"name": "final-simplify-containers-dropped", "rule": "R11.4", "file": OPT, "expect": "fire",
      "old": "    node = node.Visit(visitors.AdjustSelf())\n  node = node.Visit(SimplifyContainers())\n",
